@@ -7,7 +7,7 @@ ROOT = os.path.dirname(os.path.dirname(os.path.abspath(__file__)))
 CHECKS = {
  # id: (level, technique, level_text, level_note, design_ref)
  "C01": ("exploration", "runtime monitoring: differential oracle (reference filter) + metamorphic laws over real executions in crash-isolated children",
-         "Held on every generated (table, predicate) pair explored: the real New+Exec output is compared row-for-row with an independent reference filter, plus three metamorphic laws between real executions. Columns include natively typed Go integers and IN-subqueries correlated to the outer row; columns named plainly, by the table's alias, without it, or by the table's own name; string and numeric constants of one statement spelled alike; dual as a one-row source; a share of the cases under IdomaticArrays. Sampled, not exhaustive, over the predicate grammar.",
+         "Held on every generated (table, predicate) pair explored: the real New+Exec output is compared row-for-row with an independent reference filter, plus three metamorphic laws between real executions. Columns include natively typed Go integers and IN-subqueries correlated to the outer row; columns named plainly, by the table's alias, without it, or by the table's own name; string and numeric constants of one statement spelled alike; dual as a one-row source; a share of the cases under IdomaticArrays; column names that are not plain words; long tables; one Query re-executed while a variable or the document changes. Sampled, not exhaustive, over the predicate grammar.",
          "Trusted: the reference predicate evaluator in harness/internal/ref, the generator's domain restrictions listed in the evidence assumptions.", "DESIGN.md §6 C01"),
 }
 
@@ -15,35 +15,35 @@ TRUST = "Trusted: the harness's reference model / metamorphic relation for this 
 def expl(pid, tech, text):
     CHECKS[pid] = ("exploration", tech, text, TRUST, "DESIGN.md §6 " + pid)
 expl("C02", "runtime monitoring: differential oracle (bit-exact reference expression evaluator) over real executions",
-     "Held on every generated (table, select list, WHERE) explored: row count, exact key set and bit-exact values against a reference evaluator doing the same IEEE-754 operations; also under PostgresEscapingDialect, with every column naming mode, and over envelope rows whose only key holds the object the missing names live in.")
+     "Held on every generated (table, select list, WHERE) explored: row count, exact key set and bit-exact values against a reference evaluator doing the same IEEE-754 operations; also under PostgresEscapingDialect, with every column naming mode, and over envelope rows whose only key holds the object the missing names live in; open-ended range paths over per-row arrays.")
 expl("C03", "runtime monitoring: differential oracle (reference group-by, sequence-exact) + conservation law + repeated-run determinism",
-     "Held on every generated grouped / whole-table aggregate query explored, each run several times on fresh copies: groups in first-appearance order, members in source order, exact aggregates, sum(COUNT(*)) = filtered rows; aliased tables with qualified column names; one Query re-executed while a variable read by WHERE changes, also across an execution that fails after its first aggregates; aggregates of grouping columns.")
+     "Held on every generated grouped / whole-table aggregate query explored, each run several times on fresh copies: groups in first-appearance order, members in source order, exact aggregates, sum(COUNT(*)) = filtered rows; aliased tables with qualified column names; one Query re-executed while a variable read by WHERE changes, also across an execution that fails after its first aggregates; aggregates of grouping columns and of like-named nested members; every column naming mode.")
 expl("C04", "runtime monitoring: differential oracle (nested-loop reference multiset) across every strategy spelling + metamorphic ON re-spellings; Go race detector with hook-injected yields for the PARALLEL variants",
-     "Held on every generated (tables, ON tree, join type) explored under every strategy spelling; key columns of one kind or of mixed kinds (numbers vs numeric strings); 66..125 distinct keys in a share of the cases; PARALLEL variants additionally repeated under -race with yields inside the join goroutines (distinct output orders observed are reported).")
+     "Held on every generated (tables, ON tree, join type) explored under every strategy spelling; key columns of one kind or of mixed kinds (numbers vs numeric strings); 66..125 distinct keys in a share of the cases; natively typed keys, key names that are not plain words, BETWEEN / NOT in ON, operands swapped under one ON text; PARALLEL variants additionally repeated under -race with yields inside the join goroutines (distinct output orders observed are reported).")
 expl("C05", "runtime monitoring: permutation + adjacent-pair order + window oracle over three real executions",
-     "Held on every generated ORDER BY / LIMIT / OFFSET query explored: permutation of the unordered result, every adjacent pair ordered, NULL-last, exact window (length, key tuples, membership), never an error; windows are also cut from sequences shorter than the filtered source (DISTINCT, all-aggregate, GROUP BY, UNION) and keys include native integers beyond 2^53; aliases that shadow another selected source column.")
+     "Held on every generated ORDER BY / LIMIT / OFFSET query explored: permutation of the unordered result, every adjacent pair ordered, NULL-last, exact window (length, key tuples, membership), never an error; windows are also cut from sequences shorter than the filtered source (DISTINCT, all-aggregate, GROUP BY, UNION) and keys include native integers beyond 2^53; aliases that shadow another selected source column; table-qualified and nullable keys among several keys; one windowed Query re-executed over sequences of changing length.")
 expl("C06", "runtime monitoring: metamorphic oracle (first-occurrence dedup / left fold of the branches' real outputs) with deep typed equality",
-     "Held on every generated DISTINCT query and UNION chain explored, including look-alike values that collide under textual fingerprints, strings that are not valid UTF-8, chains reading CTEs of the statement, tables of 250..1050 rows, and statements built once and executed three times.")
+     "Held on every generated DISTINCT query and UNION chain explored, including look-alike values that collide under textual fingerprints, strings that are not valid UTF-8, chains reading CTEs of the statement, tables of 250..1050 rows, statements built once and executed three times, union branches selecting background calls, windows incl. the all-rows idiom, negative zero.")
 expl("C07", "runtime monitoring: metamorphic oracle (composed vs staged real executions), per-row standalone subquery executions, reference predicate for EXISTS",
      "Held on every generated CTE / derived-table / subquery / EXISTS pipeline explored (CTE names in any letter case; outer columns named bare or through the `<-` marker; nested WITH scopes; IN / NOT IN subqueries with bare, qualified and aliased items; EXISTS over dual).")
 expl("C08", "runtime monitoring: metamorphic oracle (nested result vs per-inner-array real executions; mix=> vs concatenation)",
-     "Held on every generated multi-dimensional FROM query explored (depth 2..3, ragged, empty inner arrays; select lists with plain, non-idempotent, aggregate, user-function and ASYNC items; per-query variables and constants; columns qualified by the table's own name over nested, flattened and flat sources).")
+     "Held on every generated multi-dimensional FROM query explored (depth 2..3, ragged, empty inner arrays; select lists with plain, non-idempotent, aggregate, user-function and ASYNC items; per-query variables and constants; columns qualified by the table's own name over nested, flattened and flat sources, also under an alias of the source; rows carrying a column named like the table).")
 
 expl("C09", "runtime monitoring: differential oracle (reference selector evaluator written from the README grammar) + totality/doc-unchanged monitor on arbitrary byte strings",
      "Held on every generated (document, selector) explored: value and error-ness agree with the documented meaning (cold and warm parse cache), never a panic, document unchanged; quoted keys whose text looks like a step; arbitrary byte strings: totality only.")
 CHECKS["C15"] = ("exploration", "runtime monitoring over an exhaustively enumerated finite domain: exact rational order oracle, reflexivity, antisymmetry, transitivity on the real compare.Compare",
      "All ordered pairs of a representative boundary-value domain across every Go numeric type and strings are enumerated (exhaustive over that stated finite domain, not over all values); same-kind triples exhaustively in the thorough tier, sampled in quick. A further phase drives the comparison through the engine (WHERE, IN, BETWEEN, ORDER BY with one and two keys, hash and nested-loop joins) over key columns mixing Go numeric types (incl. float32 values that are not short in binary) and numeric strings.", TRUST, "DESIGN.md §6 C15")
 expl("C16", "runtime monitoring: AST-shape oracle using the library's own parser + echo / row-level end-to-end injection monitors",
-     "Held on every generated (template, arguments) explored: same statement shape as the template with sentinel literals, exact echo, exact filter, static text untouched, errors (not panics) for missing/unused/$0; two prepared commands alive at once and concurrent SanitizeSQL calls return what a lone call returns; sanitized text is also evaluated under PostgresEscapingDialect; line comments with TAB / CR / nothing after the introducer, # and // comments; array-literal templates evaluated under IdomaticArrays.")
+     "Held on every generated (template, arguments) explored: same statement shape as the template with sentinel literals, exact echo, exact filter, static text untouched, errors (not panics) for missing/unused/$0; two prepared commands alive at once and concurrent SanitizeSQL calls return what a lone call returns; sanitized text is also evaluated under PostgresEscapingDialect; line comments with TAB / CR / nothing after the introducer, # and // comments; array-literal templates evaluated under IdomaticArrays; numeric arguments of every Go type.")
 expl("C17", "runtime monitoring: metamorphic oracle (option + matching or neutral spelling vs canonical spelling) + echo of literals/aliases/arrays",
      "Held on every generated query explored under all 2^3 option sets, a share of them right after a query text the option rewrite rejects; comments holding quotes and brackets; WITH scopes inside derived tables and CTE bodies under Wrapped.")
 expl("C18", "runtime monitoring: per-function reference implementations compared with real `SELECT f(args)` executions (value and error-ness)",
      "Held on every generated (function, arguments) explored; CONCAT with NULL arguments is an open known finding (quarantined, witness re-run on every check). Open-ended DATERANGE; CONSTANT inside nested queries next to other options; arrays of more than a million elements.")
 expl("C20", "runtime monitoring: sequential per-key register model replayed against real query histories sharing one variable map",
-     "Held on every generated history (1..4 queries, 1..4 keys) explored: GETVAR values, no SETVAR column, caller's map after each Exec; ORDER BY does not reorder evaluation; grouped queries evaluate each group's select list once; numeric register keys; registers on both sides of UNION ALL whatever the right branch is made of.")
+     "Held on every generated history (1..4 queries, 1..4 keys) explored: GETVAR values, no SETVAR column, caller's map after each Exec; ORDER BY does not reorder evaluation; grouped queries evaluate each group's select list once; numeric register keys; registers on both sides of UNION ALL whatever the right branch is made of; register-only predicates on re-executed queries and across inner arrays.")
 
 expl("C10", "runtime monitoring: process-level crash/hang monitor (recover at the API, child exit status, watchdog, background-call quiescence) over seeded hostile workloads in crash-isolated children; thorough adds a -race pass",
-     "Held on every generated (query, option set, document) explored across 30 families of valid, mutated, random and named-hostile inputs: control always returned with rows or an error; no escaped panic, process death or hang. 'Never loops forever' is decided as bounded progress.")
+     "Held on every generated (query, option set, document) explored across 32 families of valid, mutated, random and named-hostile inputs: control always returned with rows or an error; no escaped panic, process death or hang. 'Never loops forever' is decided as bounded progress.")
 CHECKS["C11"] = ("fault_enumeration", "runtime monitoring: cycle-safe input snapshot before/after New+Exec; fault enumeration over every invocation index of an injected failing function (error and three panic kinds)",
      "Held on every generated query explored, on success and on error, with and without Wrapped; for queries with a fault position every crash point k = 1..N is enumerated (exhaustive in k per query, sampled in queries).", TRUST, "DESIGN.md §6 C11")
 expl("C12", "runtime monitoring: plain-data type walk + encoding/json round trip + repeated evaluation, over the full (expression form x clause position) matrix",
@@ -51,7 +51,7 @@ expl("C12", "runtime monitoring: plain-data type walk + encoding/json round trip
 expl("C13", "Go race detector over concurrent and internally-parallel workloads with hook-injected yields + per-goroutine result vs run-alone result + shared-document snapshot",
      "Held on every concurrent workload explored (5 workload kinds, 2..16 goroutines; plus a cold-start phase in which every case is a fresh process whose first use of the library is a concurrent burst): no race report with genql frames, no child death, no deadlock, no cross-talk, shared document unchanged. Says nothing about schedules the runs did not produce.")
 expl("C14", "runtime monitoring: invocation ledger (atomic sequence numbers) of instrumented user functions vs exec-return, result vs pure-function reference, under injected latency profiles; -race pass with hook yields",
-     "Held on every generated (table, select list, latency profile) explored: ASYNC/SPINASYNC invoked exactly once per row and completed before Exec returned, ASYNC values equal the unqualified call, no extra column, ONCE once per query, immediate functions (also mixed-case registrations) reject ASYNC/SPIN/SPINASYNC; LIMIT/OFFSET pages, also empty ones, leave no call running; ASYNC items of derived tables used as join operands are awaited and resolved; ORDER BY / DISTINCT over async columns equal the unqualified query; ASYNC over built-in functions with large payloads; no call is left running when Exec returns an error; ASYNC columns of nested queries consumed by the enclosing query (WHERE, aggregates, GROUP BY, ON, function arguments) equal the unqualified query; an immediate function registered late in the life of the process is rejected all the same.")
+     "Held on every generated (table, select list, latency profile) explored: ASYNC/SPINASYNC invoked exactly once per row and completed before Exec returned, ASYNC values equal the unqualified call, no extra column, ONCE once per query, immediate functions (also mixed-case registrations) reject ASYNC/SPIN/SPINASYNC; LIMIT/OFFSET pages, also empty ones, leave no call running; ASYNC items of derived tables used as join operands are awaited and resolved; ORDER BY / DISTINCT over async columns equal the unqualified query; ASYNC over built-in functions with large payloads; no call is left running when Exec returns an error; ASYNC columns of nested queries consumed by the enclosing query (WHERE, aggregates, GROUP BY, ON, function arguments) equal the unqualified query; an immediate function registered late in the life of the process is rejected all the same; one Query re-executed with a failing background call in one of the executions; CTEs read twice run their calls once.")
 CHECKS["C19"] = ("fault_enumeration", "runtime monitoring: fault enumeration - a failing user function placed in every clause position, every invocation index k = 1..N enumerated; RAISE_WHEN on every row index; type errors in every clause; follow-up query vs pristine copy",
      "Held for every fault point of every generated query explored: (no rows, error), an unaffected follow-up query on the same input, the same Query object usable again, and a failing query failing again when repeated; type errors include a reader error on a single row (ORDER BY path, later join key column) and natively typed integers where a boolean / string / array is required; follow-up queries show whole rows under an alias. Exhaustive in k per query, sampled in queries.", TRUST, "DESIGN.md §6 C19")
 
